@@ -43,6 +43,8 @@ func init() {
 	mergeSpecials["networks.*.ipam.config"] = mergeIPAMConfig
 	mergeSpecials["networks.*.labels"] = mergeToSequence
 	mergeSpecials["volumes.*.labels"] = mergeToSequence
+	mergeSpecials["secrets.*.labels"] = mergeToSequence
+	mergeSpecials["configs.*.labels"] = mergeToSequence
 	mergeSpecials["services.*.annotations"] = mergeToSequence
 	mergeSpecials["services.*.build"] = mergeBuild
 	mergeSpecials["services.*.build.args"] = mergeToSequence
@@ -254,7 +256,6 @@ func mergeUlimit(_ any, o any, p tree.Path) (any, error) {
 }
 
 func mergeIPAMConfig(c any, o any, path tree.Path) (any, error) {
-	var ipamConfigs []any
 	if o == nil {
 		return c, nil
 	}
@@ -266,44 +267,33 @@ func mergeIPAMConfig(c any, o any, path tree.Path) (any, error) {
 	if !ok {
 		return nil, fmt.Errorf("cannot override %s", path)
 	}
-	if len(base) == 0 {
-		return other, nil
-	}
+	// pools are identified by their subnet: keep all pools already defined, merge those
+	// which are overridden and add the new ones
+	var ipamConfigs []any
 	for _, original := range base {
 		right, ok := original.(map[string]any)
 		if !ok {
 			return nil, fmt.Errorf("cannot override %s", path)
 		}
-		for _, override := range other {
-			left, ok := override.(map[string]any)
-			if !ok {
-				return nil, fmt.Errorf("cannot override %s", path)
-			}
-			if left["subnet"] != right["subnet"] {
-				// check if left is already in ipamConfigs, add it if not and continue with the next config
-				if !slices.ContainsFunc(ipamConfigs, func(a any) bool {
-					return a.(map[string]any)["subnet"] == left["subnet"]
-				}) {
-					ipamConfigs = append(ipamConfigs, left)
-					continue
-				}
-			}
-			merged, err := mergeMappings(right, left, path)
-			if err != nil {
-				return nil, err
-			}
-			// find index of potential previous config with the same subnet in ipamConfigs
-			indexIfExist := slices.IndexFunc(ipamConfigs, func(a any) bool {
-				return a.(map[string]any)["subnet"] == merged["subnet"]
-			})
-			// if a previous config is already in ipamConfigs, replace it
-			if indexIfExist >= 0 {
-				ipamConfigs[indexIfExist] = merged
-			} else {
-				// or add the new config to ipamConfigs
-				ipamConfigs = append(ipamConfigs, merged)
-			}
+		ipamConfigs = append(ipamConfigs, right)
+	}
+	for _, override := range other {
+		left, ok := override.(map[string]any)
+		if !ok {
+			return nil, fmt.Errorf("cannot override %s", path)
 		}
+		indexIfExist := slices.IndexFunc(ipamConfigs, func(a any) bool {
+			return a.(map[string]any)["subnet"] == left["subnet"]
+		})
+		if indexIfExist < 0 {
+			ipamConfigs = append(ipamConfigs, left)
+			continue
+		}
+		merged, err := mergeMappings(ipamConfigs[indexIfExist].(map[string]any), left, path)
+		if err != nil {
+			return nil, err
+		}
+		ipamConfigs[indexIfExist] = merged
 	}
 	return ipamConfigs, nil
 }
